@@ -44,6 +44,23 @@ func zzFullService(httpOn, httpsOn, muxOn bool, subHost string) (*Service, *vhos
 		rc.VhostHTTPSMuxer, _ = vhost.NewHTTPSMuxer(&zzListener{}, time.Second)
 	}
 	rc.NatHoleController, _ = nathole.NewController(time.Hour)
+	// lock-discipline monitor on every shared table (Go aborts on concurrent map access)
+	zzverif.Guard(svr.ctlManager.ctlsByRunID, &svr.ctlManager.mu, "ControlManager.ctlsByRunID")
+	svr.pxyManager.ZZGuard()
+	rc.VisitorManager.ZZGuard()
+	rc.TCPPortManager.ZZGuard("tcpPorts")
+	rc.UDPPortManager.ZZGuard("udpPorts")
+	routers.ZZGuard("httpVhostRouter")
+	rc.TCPGroupCtl.ZZGuard()
+	rc.HTTPGroupCtl.ZZGuard()
+	rc.TCPMuxGroupCtl.ZZGuard()
+	rc.NatHoleController.ZZGuard()
+	if rc.VhostHTTPSMuxer != nil {
+		rc.VhostHTTPSMuxer.ZZGuard("httpsMuxer.routes")
+	}
+	if rc.TCPMuxHTTPConnectMuxer != nil {
+		rc.TCPMuxHTTPConnectMuxer.ZZGuard("tcpmuxMuxer.routes")
+	}
 	return svr, routers
 }
 
@@ -107,7 +124,7 @@ func VerifC16NewProxy() {
 		f, u = svr.rc.UDPPortManager.ZZCounts()
 		zzverif.Assert(f == 2 && u == 0, "C10.newproxy.refused-leaves-udp-ports")
 		_, ok := svr.pxyManager.GetByName(m.ProxyName)
-		zzverif.Assert(!ok && len(ctl.proxies) == 0, "C10.newproxy.refused-leaves-names")
+		zzverif.Assert(!ok && zzCtlProxyCount(ctl) == 0, "C10.newproxy.refused-leaves-names")
 		for _, l := range zzNet.listeners {
 			zzverif.Assert(l.closed == 1, "C10.newproxy.refused-closes-listeners")
 		}
@@ -130,7 +147,7 @@ func VerifC16NewProxy() {
 		zzverif.Assert(svr.rc.TCPMuxHTTPConnectMuxer.ZZRoutes() == 0, "C10.newproxy.close-releases-tcpmux-routes")
 	}
 	_, ok := svr.pxyManager.GetByName(m.ProxyName)
-	zzverif.Assert(!ok && len(ctl.proxies) == 0, "C10.newproxy.close-releases-name")
+	zzverif.Assert(!ok && zzCtlProxyCount(ctl) == 0, "C10.newproxy.close-releases-name")
 	// an identical registration right afterwards succeeds
 	_, err = ctl.RegisterProxy(m)
 	zzverif.Assert(err == nil, "C10.newproxy.identical-registration-after-close-succeeds")
